@@ -142,7 +142,43 @@ def pan(R, n=None, prefix=None):
     n = n or R.choice([12, 13, 14, 15, 16, 16, 16, 17, 18, 19, 19])
     p = prefix if prefix is not None else R.choice(["4", "5", "51", "55", "57", "5710", "5711", "5712", "62", "67", "9F6B", "34", "37", "6011"])
     p = "".join(ch for ch in p if ch.isdigit())[:n]
-    return p + digits(R, n - len(p))
+    body = p + digits(R, n - len(p))
+    return body[:-1] + luhn_digit(body[:-1]) if R.random() < .8 and n > 1 else body
+
+
+def luhn_digit(body):
+    t = 0
+    for i, ch in enumerate(reversed(body)):
+        d = int(ch)
+        if i % 2 == 0:
+            d = d * 2 - 9 if d > 4 else d * 2
+        t += d
+    return str(-t % 10)
+
+
+def luhn_pan(R, n):
+    """an n-digit PAN with a valid check digit and a plausible issuer prefix"""
+    if n < 2:
+        return digits(R, n)
+    p = R.choice(["4", "51", "52", "55", "2221", "34", "37", "6011", "62", "67", "50", "56", "57", "58", "9"])[: n - 1]
+    body = p + digits(R, n - 1 - len(p))
+    return body + luhn_digit(body)
+
+
+PSNS = ["00", "01", "02", "07", "45", "99"]
+
+
+def card_number(R, n):
+    """n digits as hosts and files carry a PAN: check digit valid; zero-filled on the left to the field size; or a PAN
+    followed by a three-digit sequence number"""
+    c = R.random()
+    if c < .6 or n < 14:
+        return luhn_pan(R, n)
+    if c < .8:
+        k = R.choice([x for x in (13, 14, 15, 16) if x < n] or [n])
+        return "0" * (n - k) + luhn_pan(R, k)
+    k = n - 3
+    return luhn_pan(R, k) + "0" + R.choice(PSNS)
 
 
 def track2_bcd(R, wrap=None):
